@@ -206,8 +206,78 @@ def classes_custom(rec, name, tier, seed, shard, nshards, n_unused):
     rec.exhaustive = True
 
 
+# ------------------------------------------- the compressed files that BANE itself writes (the files Aegean is given)
+bane_strategy = st.fixed_dictionaries({
+    "rows": st.integers(12, 90), "cols": st.integers(12, 90), "grid": st.integers(2, 12), "boxmul": st.floats(1, 4),
+    "cores": st.sampled_from([1, 1, 2]), "cd": st.booleans(),
+    "crval": st.tuples(st.floats(0, 359.99), st.floats(-80, 80)),
+    "crpix": st.tuples(st.floats(-300, 300), st.floats(-300, 300)),
+    "scale": st.floats(1, 600), "seed": st.integers(0, 2 ** 31 - 1)})
+
+
+def check_bane(c):
+    """BANE --compress writes *_bkg.fits and *_rms.fits decimated to its grid; each must expand to the image's shape and WCS
+    keywords, and be accepted as an auxiliary image of the image's shape"""
+    from AegeanTools import BANE
+    from AegeanTools.source_finder import SourceFinder
+    res = Res()
+    rows, cols, g = c["rows"], c["cols"], c["grid"]
+    rng = np.random.default_rng(c["seed"])
+    img = rng.normal(size=(rows, cols)).astype(np.float32)
+    hdu = make_hdu(dict(c), img)
+    h0 = hdu.header.copy()
+    box = int(max(4, g, round(g * c["boxmul"])))
+    d = workdir("c15b_")
+    try:
+        src = os.path.join(d, "im.fits")
+        hdu.writeto(src)
+        BANE.filter_image(src, out_base=os.path.join(d, "out"), step_size=(g, g), box_size=(box, box), cores=c["cores"],
+                          nslice=None if c["cores"] == 1 else c["cores"], compressed=True)
+        for name in ("bkg", "rms"):
+            fn = os.path.join(d, "out_%s.fits" % name)
+            tags = dict(map=name, cd=c["cd"])
+            if not os.path.exists(fn):
+                res.bad("bane-file-missing", "BANE wrote no %s" % os.path.basename(fn), **tags)
+                continue
+            if not fits_tools.is_compressed(fits.getheader(fn)):
+                res.bad("bane-file-not-compressed", "%s carries no compression keywords" % os.path.basename(fn), **tags)
+                continue
+            ehl = fits_tools.expand(fn)
+            h1 = ehl[0].header
+            if np.asarray(ehl[0].data).shape != (rows, cols):
+                res.bad("bane-file-shape", "%dx%d grid %d: %s expands to %r" % (rows, cols, g, os.path.basename(fn),
+                                                                              np.asarray(ehl[0].data).shape), **tags)
+                continue
+            for k in KEYS:
+                if k not in h0:
+                    continue
+                a, b = h0[k], h1.get(k)
+                if isinstance(a, str):
+                    ok = a == b
+                elif b is None:
+                    ok = False
+                elif k.startswith("CRPIX"):
+                    ok = abs(a - b) <= 1e-9 + 1e-12 * abs(a)
+                else:
+                    ok = abs(a - b) <= 1e-12 * abs(a)
+                if not ok:
+                    res.bad("bane-file-wcs", "%dx%d grid %d: %s expands to %s = %r, the image has %r" % (
+                        rows, cols, g, os.path.basename(fn), k, b, a), key=k, **tags)
+                    break
+            aux = SourceFinder()._load_aux_image(img, fn)
+            if aux is None or np.asarray(aux).shape != (rows, cols):
+                res.bad("bane-file-aux-shape", "_load_aux_image(%s) gave %r for a %dx%d image" % (
+                    os.path.basename(fn), None if aux is None else np.asarray(aux).shape, rows, cols), **tags)
+        res.nontrivial = bool(rows % g or cols % g)
+        res.label("bane-cd" if c["cd"] else "bane-cdelt")
+    finally:
+        shutil.rmtree(d, ignore_errors=True)
+    return res
+
+
 TESTS = {
     "roundtrip": {"strategy": lambda tier: case_strategy, "check": check_case,
                   "n": {"quick": 1200, "thorough": 40000}},
+    "bane": {"strategy": lambda tier: bane_strategy, "check": check_bane, "n": {"quick": 96, "thorough": 2000}},
     "classes": {"custom": classes_custom, "check": check_case, "n": {"quick": 0, "thorough": 0}},
 }
